@@ -59,3 +59,25 @@ def leaving_worker(ptable, me):
 def reuser(RX, obs, mw, cfg):
     ex, reused = RX.get_reusable_executor(max_workers=mw, timeout=cfg)
     obs.got(ex, reused)
+
+
+def manager_run(mt):
+    mt.run()
+
+
+def env_worker(callq, resq_w, ptable, me):
+    # environment: a worker of the pool (the real _process_worker is checked by the C04/C07 harnesses)
+    while True:
+        item = callq.worker_get()
+        if item is None:
+            resq_w.put_pid(me)
+            ptable.exit_acquire(me)
+            ptable.die(me)
+            return
+        resq_w.put_result(item)
+
+
+def env_worker_holding(callq, resq_w, ptable, me, item):
+    # the same worker, already holding a dispatched call item
+    resq_w.put_result(item)
+    env_worker(callq, resq_w, ptable, me)
